@@ -3,6 +3,7 @@ import NodisVerif.Proofs.C20Keys
 import NodisVerif.Proofs.C20ZStoreEx
 import NodisVerif.Proofs.ProtoWireMsg
 import NodisVerif.Proofs.ProtoWireBad
+import NodisVerif.Proofs.ProtoWireOut
 import NodisVerif.Model.FeedWire
 /-
   C20 — The change feed replays on a replica.
@@ -538,6 +539,14 @@ theorem decodeOp_encodeOp_iff (op : Op) (ht : op.typed = true) :
     · intro op' h'
       rw [h] at h'; cases h'
 
+/-- what DecodeOp RETURNS, for any input whatsoever, is a record Marshal accepts: every `string` field and
+    every element of a repeated string is valid UTF-8, every int64 is in range (`okVals` = field-wise
+    `PVal.ok`) — so a replica never receives a name that is not UTF-8, and Encode of a decoded record
+    never fails -/
+theorem decoded_is_encodable (b : Bytes) (op : Op) (h : decodeOp b = .ok op) :
+    encodeFails op = false ∧ ∃ sch, schemaOf op.typ.toNat = some sch ∧ okVals sch op.msg.vals = true :=
+  ⟨decodeOp_encodable h, decodeOp_okVals h⟩
+
 /-- hypotheses satisfiable: typed, not well-formed (an element of HDEL's repeated string is not UTF-8) -/
 example : ({ typ := 6, msg := { vals := [.bytes [104], .list [[102], [0xc3, 0x28], [103]]] } } : Op).typed = true ∧
     ({ typ := 6, msg := { vals := [.bytes [104], .list [[102], [0xc3, 0x28], [103]]] } } : Op).wf = false ∧
@@ -632,6 +641,27 @@ theorem replay_call_through_wire_partial (c : Call) (hwf : c.WF) {now : Int} {p 
         (Feed.applyAll r now) = some r' ∧ Same now (c.run p now).1 r' := by
   rw [(replicate_through_wire _ hn).2 r now]
   exact replay_call_partial c hwf hs hl hfd hreg
+
+theorem batchesViaWire_normal (bs : List (List FeedOp × Int))
+    (h : ∀ b ∈ bs, ∀ op ∈ b.1, Feed.wireNormal op = true) : Feed.batchesViaWire bs = some bs := by
+  unfold Feed.batchesViaWire
+  induction bs with
+  | nil => rfl
+  | cons b rest ih =>
+    rw [List.mapM_cons, (replicate_through_wire b.1 (h b (List.mem_cons_self ..))).1,
+      ih (fun c hc => h c (List.mem_cons_of_mem _ hc))]
+    rfl
+
+/-- sequences of calls at non-decreasing times: every batch Encoded, Decoded and applied at the time of its
+    call brings the replica to the primary's logical keyspace (hypothesis as above: the shipped records are
+    normal, which the driver evaluates for every record of every run) -/
+theorem replay_sequence_through_wire_partial (calls : List (Call × Int)) (t : Int) (p r : MState) (hs : Same t p r)
+    (hl : p.listeners = true) (hfd : p.feed = []) (hok : CallsOK t calls p)
+    (hn : ∀ b ∈ (runCalls calls p).2, ∀ op ∈ b.1, Feed.wireNormal op = true) :
+    ∃ r', (Feed.batchesViaWire (runCalls calls p).2).bind (applyBatches r) = some r' ∧
+      Same (lastTime t calls) (runCalls calls p).1 r' := by
+  rw [batchesViaWire_normal _ hn]
+  exact replay_sequence_partial calls t p r hs hl hfd hok
 
 /-- the hypothesis is satisfiable and decided by evaluation: a SET with a deadline, a ZREMRANGEBYSCORE and a
     ZUNIONSTORE record are normal; a record naming a key that is not UTF-8 is not, and does not arrive (A-200) -/
